@@ -17,7 +17,8 @@ from .ports_common import Device, Horizon, install_seams, make_doubles
 PROP = 'C11'
 H = 4        # idle sleeps tolerated inside one blocking call before cutting
 
-KINDS = ('multi-from-iterator', 'in-direct', 'in-parser', 'in-selfclosing', 'in-selfclosing-direct',
+KINDS = ('multi-of-ioport', 'multi-of-direct', 'multi-from-iterator',
+         'in-direct', 'in-parser', 'in-selfclosing', 'in-selfclosing-direct',
          'out', 'out-autoreset', 'io-autoreset', 'io-selfclosing', 'echo',
          'ioport', 'ioport-selfclosing', 'multi', 'multi-selfclosing')
 
@@ -96,6 +97,23 @@ def build_port(mido, kind):
             s.autoreset_dev = 1
         else:
             s.selfclosing = {0}
+    elif kind == 'multi-of-ioport':
+        # ports wrapping ports: a MultiPort over an IOPort wrapper and a plain
+        # device port
+        s.inp = D.InParserDouble('i', dev=dev('a'))
+        s.outp = D.OutDouble('o', dev=dev('b'))
+        wrapper = mido.ports.IOPort(s.inp, s.outp)
+        other = D.IODouble('c', dev=dev('c'))
+        s.children = [wrapper, other]
+        s.child_devs = {0: [0, 1], 1: [2]}
+        s.port = mido.ports.MultiPort(s.children)
+        s.in_srcs = [0, 2]
+        s.out_devs = [1, 2]
+    elif kind == 'multi-of-direct':
+        s.children = [D.InDouble('a', dev=dev('a')),
+                      D.InDouble('b', dev=dev('b'))]
+        s.port = mido.ports.MultiPort(s.children)
+        s.can_out = False
     elif kind in ('multi', 'multi-selfclosing', 'multi-from-iterator'):
         acls = D.IOSelfClosing if kind == 'multi-selfclosing' else D.IODouble
         s.children = [acls('a', dev=dev('a')), D.IODouble('b', dev=dev('b'))]
@@ -146,9 +164,11 @@ def make_search(mido, kind, depth):
         if kind.startswith('multi'):
             for i, ch in enumerate(s.children):
                 if ch.closed:
-                    for mid in s.order[i]:
-                        if s.status[mid] == 'device':
-                            s.status[mid] = 'lost'
+                    devs = getattr(s, 'child_devs', {}).get(i, [i])
+                    for di in devs:
+                        for mid in s.order.get(di, ()):
+                            if s.status[mid] == 'device':
+                                s.status[mid] = 'lost'
         if s.closed_model or (kind != 'echo' and s.port.closed):
             for mid, st in s.status.items():
                 if st == 'device':
@@ -425,8 +445,12 @@ def make_search(mido, kind, depth):
             if kind == 'echo':
                 return
             for i in s.out_devs:
-                child_closed = kind.startswith('multi') and \
-                    s.children[i].closed
+                child_closed = False
+                if kind.startswith('multi'):
+                    cd = getattr(s, 'child_devs', None)
+                    ci = i if cd is None else next(
+                        c for c, ds in cd.items() if i in ds)
+                    child_closed = s.children[ci].closed
                 want = 0 if child_closed else 1
                 if obs['sent_delta'][i] != want:
                     bad('send-count', f'device {s.devs[i].name} got '
